@@ -1431,7 +1431,7 @@ func streamPage(w *casefile.Writer, r *rng.R, rl *rng.R, rounds, docsPerRound, q
 			fixed := []string{
 				"not svc:\"a|b\"", "not svc:'out=0|0.0Mb' and not svc:x", "not svc:`a|b` or *",
 				"# errors|warnings of the service\n*", "* or svc:\"a\\\"|b\"", "not svc:'it\\'s|'", "* or svc:\"v\\\\\"",
-				"not svc:\"a | fields time\"", "* # all | fields time\n",
+				"not svc:\"a | fields time\"", "* # all | fields time\n", "not svc:\"a#b|c\"", "not svc:'#' and not svc:`#|`",
 			}
 			for qi := 0; qi < len(fixed)+lexQueries; qi++ {
 				var e, kind string
